@@ -270,6 +270,8 @@ def _feasible(base, i):
         return False
     if (~i) & base.k1:
         return False
+    if i > base.ub:
+        return False
     return True
 
 
@@ -308,7 +310,7 @@ def lut(tbl, base, w):
             tt = _intern_table(tt)
             if _is_linear(tt):
                 return _ac('xor', w, [lut(tt, _u(x), w) if x.op != 'const' else tt[x.val] & m for x in base.args])
-    allfeas = (base.k0 | base.k1) == 0
+    allfeas = (base.k0 | base.k1) == 0 and base.ub >= n - 1
     if not RAW:
         if allfeas:
             feas = tbl
@@ -329,7 +331,8 @@ def lut(tbl, base, w):
         # canonical form: the first selectable entry is 0, the rest of the constant is an xor operand
         first = (feas[0] & m) if feas else 0
         if first:
-            return _ac('xor', w, [lut([(v ^ first) & m for v in tbl], base, w), first])
+            r = _ac('xor', w, [lut([(v ^ first) & m for v in tbl], base, w), first])
+            return _tighten(r, max(v & m for v in feas))     # the numeric bound of the table survives the pull-out
     if RAW or allfeas:
         tbl = _intern_table([v & m for v in tbl])
         sel = tbl
@@ -534,9 +537,12 @@ def _ac(op, w, xs):
         args.append(const_term(w, acc))
     if len(args) == 1:
         return args[0]
-    if op == 'and' and len(out) == 1 and False:
-        pass
-    return _fin(op, w, args, None, k0, k1)
+    r = _fin(op, w, args, None, k0, k1)
+    if op == 'xor' and len(args) == 2 and args[0].op == 'lut' and args[1].op == 'const' and isinstance(r, Term):
+        # canonical `table ^ constant`: keep the numeric bound of the table it stands for
+        b_, kk = args[0].args[0], args[1].val
+        _tighten(r, max((v ^ kk) for i, v in enumerate(args[0].val) if _feasible(b_, i)))
+    return r
 
 
 def bxor(w, a, b):
